@@ -344,7 +344,11 @@ def splice_item(item, contracts, unit_name, used, canaries):
         last_nl = body.rfind("\n")
         last = body[last_nl + 1:]
         if last.strip().endswith(("}", ";")) or not last.strip():
-            raise Undecided("lost-anchor", f"{q}: @end needs a single-line tail expression, found `{last.strip()[:40]}`")
+            # the body ends with a statement (unit return): the ghost text goes after it, just before the closing brace
+            pos = m.end() + len(body) + 1
+            text = text[:pos] + _block(f"{unit_name}|{q}|end|0", c.end) + text[pos:]
+            used.add(q)
+            continue
         pos = m.end() + last_nl + 1
         text = text[:pos] + _block(f"{unit_name}|{q}|end|0", c.end) + text[pos:]
         used.add(q)
